@@ -23,7 +23,8 @@ def to_kelvin(value: Celsius) -> float:
 
 
 def to_kelvin_quantity(value: Celsius) -> Quantity:
-    return Quantity(to_kelvin(value) * units.kelvin)
+    # NOTE: the dimension is passed explicitly because absolute zero would otherwise be dimensionless
+    return Quantity(to_kelvin(value) * units.kelvin, dimension=units.temperature)
 
 
 # Here we allow negative Kelvin temperatures, but it does not matter for us. It's
